@@ -29,13 +29,7 @@ broadcast use {num_bigint::of_int_bi, num_bigint::bi_of_int};
 //@ extract fn choose_path from src/compiler/clvm.rs
 //@ canary swap_branches @<.unwrap() == bi_zero() {>@ => @<.unwrap() != bi_zero() {>@
 //@ replace R1 @<format!("bad path {orig} in {all}")>@ => @<verif_opaque_string()>@
-//@ sig r
-    requires bi(p) >= 0
-    ensures
-        match tree_path(bi(p), tree_of(int_mode(), *context)) {
-            Some(t) => r is Ok && tree_of(int_mode(), *r->Ok_0) == t,
-            None => r is Err,
-        }
+//@ sigfile r contracts/clvm_choose_path.sig
     decreases bi(p)
 //@ end
 
@@ -48,14 +42,12 @@ pub proof fn lemma_be_lead_zero(x: Seq<u8>)
 
 //@ note path_from_u8 / flatten_signed_int: a program atom is read as the unsigned big-endian path the consensus evaluator follows
 //@ extract fn path_from_u8 from src/compiler/clvm.rs
-//@ sig r
-    ensures bi(r) == be_unsigned(v@)
+//@ sigfile r contracts/clvm_path_from_u8.sig
 //@ end
 
 //@ extract fn flatten_signed_int from src/compiler/clvm.rs
 //@ replace R12 @<Number::from_signed_bytes_le>@ => @<BigInt::from_signed_bytes_le>@
-//@ sig r
-    ensures bi(r) == be_unsigned(u8n(bi(v)))
+//@ sigfile r contracts/clvm_flatten_signed_int.sig
 //@ after stmt @<let mut sign_digits>@
     let ghost le0 = sign_digits@;
 //@ before tail
@@ -119,14 +111,7 @@ pub proof fn lemma_min_signed_nonzero(s: Seq<u8>)
 
 //@ extract fn atom_value from src/compiler/clvm.rs
 //@ replace R1 @<format!("cons is not a number {head}")>@ => @<verif_opaque_string()>@
-//@ sig r
-    ensures match *head {
-        SExp::Integer(_, i) => r is Ok && bi(r->Ok_0) == bi(i),
-        SExp::Nil(_) => r is Ok && bi(r->Ok_0) == 0,
-        SExp::QuotedString(_, _, s) => r is Ok && bi(r->Ok_0) == be_signed(s@),
-        SExp::Atom(_, s) => r is Ok && bi(r->Ok_0) == be_signed(s@),
-        SExp::Cons(_, _, _) => r is Err,
-    }
+//@ sigfile r contracts/clvm_atom_value.sig
 //@ end
 
 pub proof fn lemma_truthy_hint(sxr: &SExp)
@@ -149,16 +134,7 @@ pub proof fn lemma_truthy_hint(sxr: &SExp)
 //@ canary negate @<return !a.is_empty();>@ => @<return a.is_empty();>@
 //@ replace R13 @<NewStyleIntConversion::setting()>@ => @<verif_int_mode()>@
 //@ replace R4 @<atom_value(sexp).unwrap_or_else(|_| bi_one())>@ => @<(match atom_value(sexp) { Ok(v) => v, Err(_) => bi_one() })>@
-//@ sig r
-    ensures
-        int_mode() ==> (r == (tree_of(true, *sexp) != tnil())),
-        !int_mode() ==> (r == !(match *sexp {
-            SExp::Cons(_, _, _) => false,
-            SExp::Nil(_) => true,
-            SExp::Integer(_, i) => bi(i) == 0,
-            SExp::QuotedString(_, _, s) => be_signed(s@) == 0,
-            SExp::Atom(_, s) => be_signed(s@) == 0,
-        })),
+//@ sigfile r contracts/clvm_truthy.sig
 //@ before stmt @<if verif_int_mode()>@
     proof { lemma_truthy_hint(&*sexp); }
 //@ end
@@ -242,11 +218,10 @@ impl SExp {
 //@ replace R52 @<prim_map: Rc<HashMap<Vec<u8>, Rc<SExp>>>,>@ => @<prim_map: Rc<VerifPrimMap>,>@
 //@ replace R1 @<"cannot apply nil".to_string(),>@ => @<verif_opaque_string(),>@
 //@ replace R1 @<format!("Unexpected head form in clvm {sexp}"),>@ => @<verif_opaque_string(),>@
+//@ replace R1 @<format!("unimplemented operator {sexp}"),>@ => @<verif_opaque_string(),>@
+//@ replace R7 @<if u8_from_number(opcode.clone()) != *v {>@ => @<if !verif_vec_eq(&u8_from_number(opcode.clone()), v) {>@
 //@ attr @<#[verifier::exec_allows_no_decreases_clause]>@
-//@ sig r
-    ensures
-        *sexp is Integer ==> (r matches Ok(x) && x == sexp),
-        *sexp matches SExp::Atom(_, v) ==> (prim_of_name(*prim_map, v@) matches Some(p) ==> (r matches Ok(x) && tree_of(int_mode(), *x) == tree_of(int_mode(), p))),
+//@ sigfile r contracts/clvm_translate_head.sig
 //@ end
 }
 fn main() {}
